@@ -96,6 +96,11 @@ def lattice():
         add("shard_multihot", "len=4,maxw=2,m=%s" % json.dumps(mv), len=4, maxw=2, m=mv, weight=sum(mv))
     for mv in [[3, 0], [0, 3], [1, 2], [2, 2], [3, 3], [4, 0], [0, 0], [1], [1, 1, 1], [], [UMAX, 0]]:
         add("shard_l1boundsum", "max=3,len=2,m=%s" % json.dumps([name(x) for x in mv]), max=3, len=2, m=mv)
+    # bounds at the top of the field: in-range elements whose L1 norm passes the bound, the modulus or the integer width
+    for mx, mv in [(P128 - 1, [P128 - 2, 1, 3]), (P128 - 1, [P128 - 1, 0, 0]), (P128 - 1, [P128 - 1, 1, 0]), (P128 - 1, [1, 2, 3]),
+                   (2 ** 127, [2 ** 127, 2 ** 127, 5]), (2 ** 127, [2 ** 127, 0, 0]), (2 ** 127, [2 ** 126, 2 ** 126, 0]), (2 ** 127, [2 ** 126, 2 ** 126, 1]),
+                   (2 ** 64, [2 ** 64, 1, 0]), (2 ** 64, [2 ** 63, 2 ** 63, 0])]:
+        add("shard_l1boundsum", "max=%s,len=3,m=%s" % (name(mx), json.dumps([name(x) for x in mv])), max=mx, len=3, m=mv)
     for ml in [0, 3, 4, 5, 8]:
         add("shard_prio2", "n=4,mlen=%d" % ml, n=4, mlen=ml)
     for mb in [0, 1, 7, 8, 9, 16]:
